@@ -108,6 +108,138 @@ pub fn check(c: &Case, ctx: &mut Ctx) -> Result<(), Failure> {
     Ok(())
 }
 
+/// several builders alive on one thread: setter calls addressed to builder 0..=2 in any interleaving; a builder
+/// ends by build() or by being dropped unbuilt, and its slot may then start a new life. Every build() is judged
+/// by the calls of its own life only.
+#[derive(Clone, Debug, Serialize, Deserialize)]
+pub enum MOp {
+    Set(u8, u8, X),
+    /// end builder k: build (true) or drop without building (false)
+    Finish(u8, bool),
+}
+#[derive(Clone, Debug, Serialize, Deserialize)]
+pub struct MCase {
+    pub ops: Vec<MOp>,
+}
+
+fn judge(last: &[Option<f64>; 5], got: Result<DataItem, TaError>, what: &str, ctx: &mut Ctx) -> Result<(), Failure> {
+    let want = verdict(last);
+    match (&want, &got) {
+        (Err(e), Err(g)) if e == g => Ok(()),
+        (Ok(()), Ok(item)) => {
+            let vals = [item.open(), item.high(), item.low(), item.close(), item.volume()];
+            for i in 0..5 {
+                if vals[i].to_bits() != last[i].unwrap().to_bits() {
+                    ctx.fail(format!("C16:getter_mismatch:{}", ["open", "high", "low", "close", "volume"][i]), format!("{}: getter returns {:e}, last value set on this builder was {:e}", what, vals[i], last[i].unwrap()))?;
+                }
+            }
+            Ok(())
+        }
+        (Err(TaError::DataItemIncomplete), _) => ctx.fail("C16:incomplete_not_reported".into(), format!("{}: expected Err(DataItemIncomplete), got {:?}", what, got)),
+        (Err(_), Ok(_)) => ctx.fail("C16:accepts_inconsistent".into(), format!("{}: inconsistent bar accepted: {:?}", what, got)),
+        (Ok(()), Err(e)) => ctx.fail("C16:rejects_consistent".into(), format!("{}: consistent bar rejected with {:?}", what, e)),
+        (Err(e), Err(g)) => ctx.fail("C16:wrong_error".into(), format!("{}: expected Err({:?}), got Err({:?})", what, e, g)),
+    }
+}
+
+pub fn check_multi(c: &MCase, ctx: &mut Ctx) -> Result<(), Failure> {
+    // the builder type is not nameable from outside the crate: generic over it
+    check_multi_g(
+        c,
+        ctx,
+        DataItem::builder,
+        |b, id, x| match id {
+            0 => b.open(x),
+            1 => b.high(x),
+            2 => b.low(x),
+            3 => b.close(x),
+            _ => b.volume(x),
+        },
+        |b| b.build(),
+    )
+}
+
+fn check_multi_g<B>(c: &MCase, ctx: &mut Ctx, mk: impl Fn() -> B, set: impl Fn(B, u8, f64) -> B, fin: impl Fn(B) -> Result<DataItem, TaError>) -> Result<(), Failure> {
+    let mut b: [Option<B>; 3] = [None, None, None];
+    let mut last: [[Option<f64>; 5]; 3] = [[None; 5]; 3];
+    let mut fp = Fp::new("C16M");
+    let (mut overlaps, mut abandoned, mut built) = (0u64, 0u64, 0u64);
+    let finish = |k: usize, build: bool, b: &mut [Option<B>; 3], last: &mut [[Option<f64>; 5]; 3], ctx: &mut Ctx, at: usize| -> Result<(), Failure> {
+        if let Some(bb) = b[k].take() {
+            if build {
+                judge(&last[k], fin(bb), &format!("builder {} finished at op {} of {:?}", k, at, c.ops), ctx)?;
+            } else {
+                drop(bb);
+            }
+        }
+        last[k] = [None; 5];
+        Ok(())
+    };
+    for (i, op) in c.ops.iter().enumerate() {
+        match op {
+            MOp::Set(k, id, x) => {
+                let k = (*k).min(2) as usize;
+                fp.u(k as u64);
+                fp.u(*id as u64);
+                fp.f(x.0);
+                if b[k].is_none() && b.iter().any(|o| o.is_some()) {
+                    overlaps += 1;
+                }
+                let cur = b[k].take().unwrap_or_else(&mk);
+                let x = x.0;
+                b[k] = Some(set(cur, *id, x));
+                last[k][(*id).min(4) as usize] = Some(x);
+            }
+            MOp::Finish(k, build) => {
+                let k = (*k).min(2) as usize;
+                fp.u(10 + k as u64 + if *build { 5 } else { 0 });
+                if b[k].is_some() {
+                    if *build {
+                        built += 1
+                    } else {
+                        abandoned += 1
+                    }
+                }
+                finish(k, *build, &mut b, &mut last, ctx, i)?;
+            }
+        }
+    }
+    for k in 0..3 {
+        if b[k].is_some() {
+            built += 1;
+        }
+        finish(k, true, &mut b, &mut last, ctx, c.ops.len())?;
+    }
+    ctx.label_n("builds_judged", built);
+    if (overlaps > 0 || abandoned > 0) && built >= 1 {
+        ctx.nontrivial(fp);
+        if overlaps > 0 {
+            ctx.label("builders_overlapping");
+        }
+        if abandoned > 0 {
+            ctx.label("builder_dropped_unbuilt");
+        }
+    }
+    Ok(())
+}
+
+fn multi_strategy() -> BoxedStrategy<MCase> {
+    let val = prop_oneof![5 => -50.0f64..150.0, 2 => (0usize..11).prop_map(|i| LATTICE[i]), 3 => (0usize..4).prop_map(|i| [1.0, 2.0, 3.0, 0.0][i])];
+    let op = prop_oneof![12 => (0u8..3, 0u8..5, val).prop_map(|(k, id, x)| MOp::Set(k, id, X(x))), 1 => (0u8..3, any::<bool>()).prop_map(|(k, bld)| MOp::Finish(k, bld))];
+    // a consistent complete tuple spread over the sequence makes full builds frequent
+    (vec(op, 0..40), 0usize..120, 0u8..3, any::<bool>())
+        .prop_map(|(mut ops, pk, k, tail)| {
+            if tail {
+                let vals = [1.5, 3.0, 1.0, 2.0, 7.0];
+                for &i in perm(pk).iter() {
+                    ops.push(MOp::Set(k, i, X(vals[i as usize])));
+                }
+            }
+            MCase { ops }
+        })
+        .boxed()
+}
+
 fn perm(mut k: usize) -> [u8; 5] {
     // k-th permutation of 0..5 (Lehmer code)
     let mut items: Vec<u8> = vec![0, 1, 2, 3, 4];
@@ -146,7 +278,7 @@ fn random_strategy() -> BoxedStrategy<Case> {
 }
 
 pub fn run(g: &mut Global) {
-    g.rule = "exhaustive, seed-independent: all 11^5 = 161 051 tuples over the lattice {-inf,-2,-1,-0.0,0.0,1,2,3,+inf,NaN} extended by a sign-bit-set NaN, each under all 120 setter orders (1.2e7 builds, both tiers); all 31 proper subsets of the five setters for a 1000-tuple subset; repeated setter calls (last wins); random: consistent bars by construction and arbitrary call sequences. Oracle: reference predicate (Incomplete iff a setter was never called, else Invalid iff not(low<=open, low<=close, low<=high, high>=open, high>=close, volume>=0), else Ok) and bit-exact getters, clone == item. Non-trivial = complete tuples at the accept/reject boundary (changing one field to a lattice neighbour flips the verdict) and incomplete call sequences with at least four calls; distinct by hash of the call sequence.".into();
+    g.rule = "exhaustive, seed-independent: all 11^5 = 161 051 tuples over the lattice {-inf,-2,-1,-0.0,0.0,1,2,3,+inf,NaN} extended by a sign-bit-set NaN, each under all 120 setter orders (1.2e7 builds, both tiers); all 31 proper subsets of the five setters for a 1000-tuple subset; repeated setter calls (last wins); random: consistent bars by construction and arbitrary call sequences; several_builders: up to three builders alive on one thread with interleaved setter calls, builders dropped without build(), slots reused. Oracle: reference predicate (Incomplete iff a setter was never called, else Invalid iff not(low<=open, low<=close, low<=high, high>=open, high>=close, volume>=0), else Ok) and bit-exact getters, clone == item. Non-trivial = complete tuples at the accept/reject boundary (changing one field to a lattice neighbour flips the verdict) and incomplete call sequences with at least four calls; distinct by hash of the call sequence.".into();
     g.assumptions = vec![];
     let all_orders = true; // 1.2e7 builds take well under a second on 16 cores: both tiers
     let _ = Tier::Quick;
@@ -209,6 +341,9 @@ pub fn run(g: &mut Global) {
         &check,
     );
     g.random("random", g.tier.pick(20_000, 5_000_000), &random_strategy, &check);
+    // several builders alive at once, builders dropped unbuilt, slots reused: each build() is judged by the calls
+    // made on that builder only (no state shared between builders through statics, thread-locals or pools)
+    g.random("several_builders", g.tier.pick(300_000, 5_000_000), &multi_strategy, &check_multi);
     // long chains of setter calls (up to 600 per build): "last value wins" must not depend on how many
     // calls were made; one field is left out in a third of the chains
     g.random(
